@@ -284,4 +284,142 @@ theorem assignment_typed_agree (x : Opnd) (t : Ty) (hx : x.rv = .none) (hxt : x.
   simp only [isNil_typed x.ty hxt, hxt, Bool.false_and, Bool.false_eq_true, ↓reduceIte, hx,
     assignableToY_typed x.ty t hxt ht h1 h2, okIf]
 
+/-! ### shifts, arithmetic, comparisons, index expressions on typed non-constant operands -/
+theorem isIntT_typed (t : Ty) (h : t.isUntyped = false) : isIntT FE t = kindIsG Kind.isInteger t := by
+  obtain ⟨k, k', hk, hk', hrel⟩ := kind_typed t h
+  unfold isIntT kindIs kindIsG
+  simp only [hk, hk', predOk_isInt]
+  rcases hrel with rfl | ⟨rfl, rfl⟩ <;> rfl
+
+/-- shifts of typed non-constant operands -/
+theorem shift_typed_agree (op : ShOp) (x y : Opnd) (hx : x.rv = .none) (hy : y.rv = .none)
+    (hxt : x.ty.isUntyped = false) (hyt : y.ty.isUntyped = false) :
+    shiftY TE op x y = shiftG op x y := by
+  have hc : bothConstant x y = false := by simp [bothConstant, Opnd.isConst, hx]
+  have hcg : bothConstantG x y = false := by simp [bothConstantG, Opnd.isConst, hx]
+  have hnx := isNil_typed x.ty hxt
+  unfold shiftY shiftG shiftCheckY shiftCheckG
+  simp only [hc, hcg, hxt, hyt, hx, hy, hnx, Bool.false_eq_true, ↓reduceIte]
+  have h1 := isIntT_typed x.ty hxt
+  have h2 := isIntT_typed y.ty hyt
+  change isIntT FE x.ty = _ at h1
+  cases hty : y.ty with
+  | untyped u => simp [hty, Ty.isUntyped] at hyt
+  | nil => simp [hty, Ty.isUntyped] at hyt
+  | _ =>
+    rw [hty] at h2
+    have e1 : TE.ops = FE := rfl
+    simp only [e1, h1, h2]
+    cases kindIsG Kind.isInteger x.ty <;> cases kindIsG Kind.isInteger (_ : Ty) <;> rfl
+
+
+theorem kind_typed_noniface (t : Ty) (h : t.isUntyped = false) (hi : t.isIface = false) :
+    ∃ k, t.kind? = some k ∧ underKind t = some k := by
+  cases t <;> simp [Ty.isUntyped, Ty.isIface] at h hi <;> exact ⟨_, rfl, rfl⟩
+
+/-- arithmetic operators on typed non-constant operands of non-interface types, outside a propagation zone -/
+theorem arith_typed_agree (op : BinOp) (x y : Opnd) (hop : op.propagates = true)
+    (hx : x.rv = .none) (hy : y.rv = .none)
+    (hxt : x.ty.isUntyped = false) (hyt : y.ty.isUntyped = false)
+    (hxi : x.ty.isIface = false) (hyi : y.ty.isIface = false) :
+    binY TE op none x y = binG op none x y := by
+  have hc : bothConstant x y = false := by simp [bothConstant, Opnd.isConst, hx]
+  have hcg : bothConstantG x y = false := by simp [bothConstantG, Opnd.isConst, hx]
+  have hnx := isNil_typed x.ty hxt
+  have hny := isNil_typed y.ty hyt
+  obtain ⟨k, hk, hk'⟩ := kind_typed_noniface x.ty hxt hxi
+  have hb : boolResultRv x y = .none := by simp [boolResultRv, hx]
+  have hz : zeroConstY y = .ok false := by simp [zeroConstY, hyt]
+  have hm : matchG x y = .ok (x, y) := by
+    have : (RVal.none == RVal.ubool) = false := by decide
+    simp [matchG, untypedLike, hxt, hyt, hx, hy, this]
+  have hcx : convertUntypedY TE.ops x y.ty = .ok x := by simp [convertUntypedY, hxt]
+  have hcy : convertUntypedY TE.ops y x.ty = .ok y := by simp [convertUntypedY, hyt]
+  have heq : equalsT x.ty y.ty = (x.ty == y.ty) := by simp [equalsT, hxi, hyi]
+  have hzc : isZeroConst y = false := by simp [isZeroConst, hy]
+  have hres : binResultTy TE.ops x y = x.ty := by simp [binResultTy, hxt]
+  have hv : x.rv.valid = false := by simp [RVal.valid, hx]
+  have hpred : binaryY TE.ops op.op.action k = definedOn op.op k := binaryY_spec op k
+  unfold binY binG arithY
+  cases op <;> simp [BinOp.propagates] at hop <;>
+    simp only [hc, hcg, hnx, hny, hm, hz, hcx, hcy, heq, hk, hk', hb, hzc, hres, hv, hpred,
+      Bool.false_eq_true, ↓reduceIte, Res.bind_ok, Bool.not_false, Bool.false_or, Bool.or_false,
+      Bool.and_false, Bool.false_and, bne, pure, Bool.not_eq_true'] <;>
+    (cases (x.ty == y.ty) <;> cases (definedOn _ k) <;> rfl)
+
+
+theorem comparable_typed (t : Ty) (h : t.isUntyped = false) :
+    (match t.rtype? with | some r => r.comparable | none => false) = comparableG t := by
+  cases t with
+  | untyped u => simp [Ty.isUntyped] at h
+  | nil => simp [Ty.isUntyped] at h
+  | iface i m => by_cases hm : m.isEmpty <;> simp [Ty.rtype?, RTy.comparable, comparableG, hm]
+  | _ => simp [Ty.rtype?, RTy.comparable, comparableG]
+
+theorem ordered_typed (t : Ty) (h : t.isUntyped = false) :
+    (isIntT FE t || isFloatT FE t || isStringT FE t) = orderedG t := by
+  obtain ⟨k, k', hk, hk', hrel⟩ := kind_typed t h
+  unfold isIntT isFloatT isStringT kindIs orderedG kindIsG
+  simp only [hk, hk', predOk_isInt, predOk_isFloat, predOk_isString]
+  rcases hrel with rfl | ⟨rfl, rfl⟩ <;> rfl
+
+/-- comparisons of typed non-constant operands of non-interface types that do not collide in reflect
+    and are not channels of different directions -/
+theorem cmp_typed_agree (op : CmpOp) (x y : Opnd)
+    (hx : x.rv = .none) (hy : y.rv = .none)
+    (hxt : x.ty.isUntyped = false) (hyt : y.ty.isUntyped = false)
+    (hxi : x.ty.isIface = false) (hyi : y.ty.isIface = false)
+    (h2 : reflectCollision x.ty y.ty = false) (h2' : reflectCollision y.ty x.ty = false)
+    (hcd : (assignableTyG x.ty y.ty || assignableTyG y.ty x.ty) = true → x.ty = y.ty) :
+    cmpY TE op x y = cmpG op x y := by
+  have hc : bothConstant x y = false := by simp [bothConstant, Opnd.isConst, hx]
+  have hcg : bothConstantG x y = false := by simp [bothConstantG, Opnd.isConst, hx]
+  have hnx := isNil_typed x.ty hxt
+  have hny := isNil_typed y.ty hyt
+  have hm : matchG x y = .ok (x, y) := by
+    have : (RVal.none == RVal.ubool) = false := by decide
+    simp [matchG, untypedLike, hxt, hyt, hx, hy, this]
+  have hcx : convertUntypedY FE x y.ty = .ok x := by simp [convertUntypedY, hxt]
+  have hcy : convertUntypedY FE y x.ty = .ok y := by simp [convertUntypedY, hyt]
+  have ha := assignableToY_typed x.ty y.ty hxt hyt (by simp [hxi]) h2
+  have hb := assignableToY_typed y.ty x.ty hyt hxt (by simp [hyi]) h2'
+  have e1 : TE.ops = FE := rfl
+  unfold cmpY cmpG comparisonY
+  simp only [hc, hcg, hnx, hny, hm, hcx, hcy, e1, hx, hy, ha, hb, hxi, hyi, hxt, hyt,
+    Bool.false_eq_true, ↓reduceIte, Res.bind_ok, Bool.and_false, Bool.false_and, pure, Bool.not_false, Bool.true_and]
+  cases hg1 : assignableTyG x.ty y.ty <;> cases hg2 : assignableTyG y.ty x.ty
+  · simp [Res.bind]
+  all_goals
+    have heq : x.ty = y.ty := hcd (by simp [hg1, hg2])
+    have hc1 := comparable_typed x.ty hxt
+    have ho1 := ordered_typed x.ty hxt
+    obtain ⟨r, hr⟩ := rtype_typed x.ty hxt
+    rw [hr] at hc1
+    simp only at hc1
+    rw [← heq]
+    cases op <;> simp [hr, hc1, ho1, Res.bind, hnx] <;>
+      (try (cases comparableG x.ty <;> rfl)) <;> (try (cases orderedG x.ty <;> rfl))
+
+
+/-- index expressions on a slice, array or string with a typed non-constant index -/
+theorem index_typed_agree (a i : Opnd) (ha : a.rv = .none) (hi : i.rv = .none) (hit : i.ty.isUntyped = false)
+    (hb : (match a.ty with | .slice _ => true | .array _ _ => true | .s t => t.under == .string | _ => false) = true) :
+    indexY TE a i = indexG a i := by
+  have hcv : convertUntypedY FE i (.s (.basic .int)) = .ok i := by simp [convertUntypedY, hit]
+  have h1 := isIntT_typed i.ty hit
+  have e1 : TE.ops = FE := rfl
+  have hu : (RVal.none == RVal.ubool) = false := by decide
+  have hchk : ∀ m, indexCheckY FE i m = indexValueG i m := by
+    intro m
+    unfold indexCheckY indexValueG
+    simp only [hcv, Res.bind_ok, h1, hi, hu]
+    generalize hk : kindIsG Kind.isInteger i.ty = b
+    cases hty : i.ty with
+    | untyped u => simp [hty, Ty.isUntyped] at hit
+    | nil => simp [hty, Ty.isUntyped] at hit
+    | _ => cases b <;> simp [Res.bind] <;> cases m <;> first | rfl | (rw [← hty]; exact hk) | simp_all
+  unfold indexY indexG
+  cases hty : a.ty <;> simp [hty] at hb <;> simp only [e1, hchk, ha, hu, Bool.false_eq_true, ↓reduceIte]
+  · simp [hb]
+
 end YaegiVerif.Typecheck
